@@ -1,15 +1,10 @@
-"""Per-property configuration of the generic pipeline (checks/common.py)."""
+"""Per-property configuration of the generic pipeline (checks/common.py): one JSON file per
+property under checks/props/ (keys: coq_header, groups, shard, rule, assumptions,
+trusted_base, timeout, search_rounds)."""
+import glob
+import json
+import os
 
-PROPS = {
-    "C18": {
-        "coq_header": "From Wharf Require Import Base.Prelude Val.Drip Val.VPool Exec.C18.\nOpen Scope Z_scope.",
-        "groups": {"drip": "drip_case", "vperr": "vperr_case", "vpwnd": "vpwnd_case"},
-        "shard": {"drip": 400, "vperr": 12, "vpwnd": 12},
-        "rule": "drip: random data over 3 symbols, buffer 1..6, arbitrary write compositions, validation failing at a random block or never; "
-                "vperr/vpwnd: pwr.ValidatingPool at the real 64 KiB block size, signed sizes on/around block multiples, written = signed + {flips at first/last/middle byte of a block, truncation, extension within/to/past the block end, replacement}, "
-                "9 write-slicing families (one write, bs-1, bs, bs+1, 32k, 2bs+3, 16k-1, boundary-hugging 1-byte writes, random); "
-                "non-trivial = at least two Write calls and more than one block of data; distinct = digest of the input",
-        "assumptions": ["strong hash (MD5) treated as injective on the blocks compared: the executable model uses the block itself as its hash",
-                        "the inner pool's writer accepts every write (a recording in-memory pool)"],
-    },
-}
+PROPS = {}
+for _p in sorted(glob.glob(os.path.join(os.path.dirname(os.path.abspath(__file__)), "props", "C*.json"))):
+    PROPS[os.path.basename(_p)[:-5]] = json.load(open(_p))
